@@ -408,7 +408,7 @@ func mergeVals(c *Term, a, b Value) (Value, bool) {
 		return ArrayV{f}, true
 	case Iface:
 		y, ok := b.(Iface)
-		if !ok || x.t != y.t {
+		if !ok || x.t != y.t || x.itab != y.itab {
 			return nil, false
 		}
 		if x.t == nil {
@@ -418,7 +418,7 @@ func mergeVals(c *Term, a, b Value) (Value, bool) {
 		if !good {
 			return nil, false
 		}
-		return Iface{x.t, m}, true
+		return Iface{t: x.t, v: m, itab: x.itab}, true
 	case *MapObj:
 		y, ok := b.(*MapObj)
 		return x, ok && x == y
